@@ -242,8 +242,9 @@ func Product(cs *CaseSet, seed int64, c Config, size, maxK int, kinds []string, 
 // Sweep: one damaged shard (always within parity, p >= 1), many parameter values of each kind, for
 // every shard index. cutLens are the truncation lengths below the 17 header bytes to include (each
 // of them kills the reading process on the unchanged library, so their number is bounded by the
-// caller); allBody adds every length from 17 to the full length.
-func Sweep(cs *CaseSet, seed int64, c Config, size int, cutLens []int, allBody bool) {
+// caller); allBody adds every length from 17 to the full length; lean (quick tier) keeps 3 of the 8
+// pad-byte bits and 2 of the 3 md5/data flip positions.
+func Sweep(cs *CaseSet, seed int64, c Config, size int, cutLens []int, allBody, lean bool) {
 	s := ShardLen(c.D, size)
 	full := HeaderSize + s
 	for sh := 0; sh < c.D+c.P; sh++ {
@@ -278,13 +279,21 @@ func Sweep(cs *CaseSet, seed int64, c Config, size int, cutLens []int, allBody b
 		}
 		cs.add1([]Damage{{Shard: sh, Kind: KGrown, Len: full + 1}})
 		for bit := 0; bit < 8; bit++ {
+			if lean && bit > 1 && bit < 7 {
+				continue
+			}
 			cs.add1([]Damage{{Shard: sh, Kind: KBadPad, Off: 0, Bit: bit}})
 		}
-		for _, ob := range [][2]int{{1, 0}, {8, 3}, {16, 7}} {
+		rnd := env.Rand(seed, fmt.Sprintf("c25-sweep/%d/%d/%d/%d", c.D, c.P, size, sh))
+		sums := [][2]int{{1, 0}, {16, 7}, {8, 3}}
+		data := [][2]int{{HeaderSize, 0}, {HeaderSize + rnd.Intn(s), rnd.Intn(8)}, {full - 1, 7}}
+		if lean {
+			sums, data = sums[:2], data[:2]
+		}
+		for _, ob := range sums {
 			cs.add1([]Damage{{Shard: sh, Kind: KBadSum, Off: ob[0], Bit: ob[1]}})
 		}
-		rnd := env.Rand(seed, fmt.Sprintf("c25-sweep/%d/%d/%d/%d", c.D, c.P, size, sh))
-		for _, ob := range [][2]int{{HeaderSize, 0}, {full - 1, 7}, {HeaderSize + rnd.Intn(s), rnd.Intn(8)}} {
+		for _, ob := range data {
 			cs.add1([]Damage{{Shard: sh, Kind: KCorrupt, Off: ob[0], Bit: ob[1]}})
 		}
 	}
@@ -296,7 +305,7 @@ func SizeList(d int, thorough bool) []int {
 	if thorough {
 		raw = []int{1, d - 1, d, d + 1, 2*d - 1, 2 * d, 2*d + 1, 3*d + 2, 255, 256, 4095, 4096, 4097, 65535, 65536, 65537}
 	} else {
-		raw = []int{1, d, d + 1, 2*d + 1, 4097, 65537}
+		raw = []int{1, d + 1, 2 * d, 65537}
 	}
 	seen := map[int]bool{}
 	var out []int
@@ -447,8 +456,9 @@ func allCutLens() []int {
 func genCases(r *report.Run) ([]Case, bool) {
 	var cases []Case
 	complete := true
-	budget := r.Pick(300, 9000)
+	budget := r.Pick(150, 10000)
 	samples := r.Pick(1, 6)
+	lean := !r.Thorough()
 	cutMixed := map[Config]bool{{1, 1}: true, {2, 1}: true} // full product including "short"
 	if r.Thorough() {
 		cutMixed[Config{1, 2}], cutMixed[Config{3, 1}], cutMixed[Config{2, 2}] = true, true, true
@@ -456,11 +466,11 @@ func genCases(r *report.Run) ([]Case, bool) {
 	for _, cfg := range AllConfigs() {
 		n := cfg.D + cfg.P
 		sizes := SizeList(cfg.D, r.Thorough())
-		// product sizes: one non-multiple of d (quick); plus 1 byte, a multiple and a big one (thorough)
+		// mixed-kind product sizes: one non-multiple of d (quick); plus 1 byte and a multiple (thorough)
 		prod := map[int]bool{cfg.D + 1: true}
 		cutSizes := map[int][]int{cfg.D + 1: {0, 9}}
 		if r.Thorough() {
-			prod[1], prod[2*cfg.D], prod[4097] = true, true, true
+			prod[1], prod[2*cfg.D] = true, true
 			cutSizes[cfg.D+1] = allCutLens()
 			cutSizes[1], cutSizes[4097], cutSizes[65537] = []int{0, 1, 16}, []int{0, 9}, []int{0, 16}
 		} else if cfg == (Config{2, 1}) {
@@ -470,7 +480,7 @@ func genCases(r *report.Run) ([]Case, bool) {
 			for _, repair := range []bool{false, true} {
 				cs := NewCaseSet()
 				if !repair {
-					Sweep(cs, r.Seed, cfg, size, cutSizes[size], ShardLen(cfg.D, size) <= 4)
+					Sweep(cs, r.Seed, cfg, size, cutSizes[size], ShardLen(cfg.D, size) <= 4, lean)
 					switch {
 					case prod[size]:
 						if !Product(cs, r.Seed, cfg, size, cfg.P+1, BodyKinds, budget, samples) {
@@ -483,6 +493,8 @@ func genCases(r *report.Run) ([]Case, bool) {
 								Product(cs, r.Seed, cfg, size, cfg.P+1, []string{KShort}, 0, 0) // uniform "short" subsets
 							}
 						}
+					case lean && size == 1:
+						// quick: 1-byte shards get the single-shard sweep only
 					default:
 						Product(cs, r.Seed, cfg, size, cfg.P+1, BodyKinds, 0, 0) // every subset x uniform kinds
 					}
@@ -491,10 +503,14 @@ func genCases(r *report.Run) ([]Case, bool) {
 					if size != cfg.D+1 && !(r.Thorough() && size == 4097) {
 						continue
 					}
-					Sweep(cs, r.Seed, cfg, size, nil, false)
+					Sweep(cs, r.Seed, cfg, size, nil, false, lean)
 					cs.add1([]Damage{{Shard: 0, Kind: KZero, Len: 0}})
 					cs.add1([]Damage{{Shard: n - 1, Kind: KShort, Len: 9}})
-					Product(cs, r.Seed, cfg, size, cfg.P+1, BodyKinds, r.Pick(0, 1500), r.Pick(0, 2))
+					if lean {
+						Product(cs, r.Seed, cfg, size, cfg.P+1, []string{KMissing, KTruncated, KCorrupt}, 0, 0)
+					} else {
+						Product(cs, r.Seed, cfg, size, cfg.P+1, BodyKinds, 1500, 2)
+					}
 				}
 				cases = append(cases, Case{Fam: "read", D: cfg.D, P: cfg.P, Size: size, Repair: repair}) // undamaged baseline
 				for _, dmg := range cs.List {
@@ -505,6 +521,9 @@ func genCases(r *report.Run) ([]Case, bool) {
 		// write failures: every subset of the d+p shard folders, two failure modes, two sizes
 		for _, size := range []int{cfg.D + 1, 4097} {
 			for _, mode := range []string{"writefile", "mkdir"} {
+				if lean && mode == "mkdir" && size == 4097 {
+					continue
+				}
 				for k := 0; k <= n; k++ {
 					for _, sub := range Subsets(n, k) {
 						cases = append(cases, Case{Fam: "write", D: cfg.D, P: cfg.P, Size: size, Fail: sub, Mode: mode})
